@@ -426,7 +426,12 @@ type replayCase struct {
 }
 
 // compare executes one history on the real code and reports every deviation.
-func compare(c *h.Check, strict bool, hist []Op) {
+func compare(c *h.Check, strict bool, hist []Op) { compareN(c, strict, hist, len(hist)) }
+
+// compareN is compare for a history whose tail (after the first `own` events) is the
+// closing sequence: the whole of it runs through Apply step by step, with every observation
+// after every step; the replay sessions and their splits are run on its own part only.
+func compareN(c *h.Check, strict bool, hist []Op, own int) {
 	rc := replayCase{Strict: strict, Hist: hist}
 	n := len(hist)
 	last := hist[n-1]
@@ -493,6 +498,10 @@ func compare(c *h.Check, strict bool, hist []Op) {
 			// sessions of this log would only repeat its consequences
 			return
 		}
+	}
+	if own < n {
+		hist, msgs, n = hist[:own], msgs[:own], own
+		last = hist[n-1]
 	}
 	rc.Hist = hist
 
@@ -601,7 +610,7 @@ func search(c *h.Check, strict bool, depth, full int) {
 	frontier := []node{{nil, NewModel()}}
 	seen["0|"+frontier[0].mo.Key()] = true
 	idx := 0
-	states, transitions, nontrivial := int64(1), int64(0), int64(0)
+	states, transitions, nontrivial, closed := int64(1), int64(0), int64(0), int64(0)
 	for d := 1; d <= depth && len(frontier) > 0; d++ {
 		var next []node
 		for _, nd := range frontier {
@@ -609,21 +618,30 @@ func search(c *h.Check, strict bool, depth, full int) {
 				idx++
 				transitions++
 				hist := append(append(make([]Op, 0, len(nd.hist)+1), nd.hist...), o)
-				if c.Mine(idx) {
-					if c.TimeUp() {
-						c.Note(fmt.Sprintf("search strict=%v stopped by the deadline at depth %d", strict, d))
-						return
-					}
-					compare(c, strict, hist)
-					if idx%40009 == 0 {
-						c.Sample(map[string]any{"strict": strict, "history": histString(hist)})
-					}
-				}
 				m2 := nd.mo.Clone()
 				m2.Step(o, d, strict)
 				// histories are merged per depth: the log length is part of the state
 				// (it decides the offsets and the split points)
 				k := fmt.Sprintf("%d|%s", d, m2.Key())
+				if c.Mine(idx) {
+					if c.TimeUp() {
+						c.Note(fmt.Sprintf("search strict=%v stopped by the deadline at depth %d", strict, d))
+						return
+					}
+					// a history the search does not extend is closed with a fixed sequence (a
+					// reset, every key inserted again, a delete, a re-insert, an update): what a
+					// store keeps besides its entries (free lists, slot tables, caches) shows
+					// only in what later messages do
+					run := hist
+					if d == depth || (seen[k] && d >= full) {
+						run = append(append(make([]Op, 0, len(hist)+len(closer)), hist...), closer...)
+						closed++
+					}
+					compareN(c, strict, run, len(hist))
+					if idx%40009 == 0 {
+						c.Sample(map[string]any{"strict": strict, "history": histString(run)})
+					}
+				}
 				if !seen[k] {
 					seen[k] = true
 					states++
@@ -640,6 +658,7 @@ func search(c *h.Check, strict bool, depth, full int) {
 		}
 		frontier = next
 	}
+	c.Count("histories_closed_with_the_closing_sequence", closed)
 	if c.Worker == 0 {
 		c.Count("states", states)
 		c.Count("transitions", transitions)
@@ -648,6 +667,17 @@ func search(c *h.Check, strict bool, depth, full int) {
 		c.Count("nontrivial", nontrivial)
 		c.Note(fmt.Sprintf("search strict=%v: alphabet %d, depth %d (every sequence up to length %d, merged beyond), states %d, transitions %d", strict, len(alpha), depth, full, states, transitions))
 	}
+}
+
+var closer = []Op{
+	{Kind: "reset"},
+	{Kind: "insert", Type: "U", Key: keys[0], Val: 0},
+	{Kind: "insert", Type: "U", Key: keys[1], Val: 1},
+	{Kind: "insert", Type: "U", Key: keys[2], Val: 0},
+	{Kind: "insert", Type: "V", Key: keys[0], Val: 1},
+	{Kind: "delete", Type: "U", Key: keys[0]},
+	{Kind: "insert", Type: "U", Key: keys[0], Val: 1},
+	{Kind: "update", Type: "U", Key: keys[1], Val: 0},
 }
 
 func run(c *h.Check) {
